@@ -140,8 +140,8 @@ theorem run_append (s : State) (ops ops' : List Op) : (run s (ops ++ ops')).1 = 
 /-! ## the overlap scan on a sorted table -/
 
 theorem overlapScan_sorted (cfg : Cfg) (prio : Nat) (m : OfMatch) (t : Table EData) (hs : SortedC cfg t) :
-    overlapScan cfg.key prio m t =
-      t.any (fun e => cfg.key e == prio && overlapsWith e.mtch m) := by
+    overlapScan cfg prio m t =
+      t.any (fun e => cfg.key e == prio && overlapsWith (dscp cfg e.mtch) (dscp cfg m)) := by
   induction t with
   | nil => rfl
   | cons e r ih =>
@@ -162,7 +162,7 @@ theorem overlapScan_sorted (cfg : Cfg) (prio : Nat) (m : OfMatch) (t : Table EDa
         exact ih hs'.2
       · have heq : (cfg.key e == prio) = true := by simp; omega
         simp only [h1, if_false, h2, heq, Bool.true_and]
-        cases hc : overlapsWith e.mtch m
+        cases hc : overlapsWith (dscp cfg e.mtch) (dscp cfg m)
         · simp [ih hs'.2]
         · simp
 
@@ -276,13 +276,13 @@ theorem flowModModify_clocks (s : State) (fm : FlowModMsg) (strict : Bool) (e' :
     `created` unchanged — or, only for a flow-mod, the entry just created (`created = last_touched = now`, counters zero). -/
 theorem step_clocks (s : State) (op : Op) (e' : FEntry) (he' : e' ∈ (step s op).1.table) :
     Kept s e' ∨
-    (∃ p inPort len, op = .packet p inPort len ∧ ∃ e ∈ s.table, e.accepts (s.cfg.mv.fromPacket p inPort) = true ∧ e' = touch len s.now e) ∨
+    (∃ p inPort len, op = .packet p inPort len ∧ ∃ e ∈ s.table, accepts s.cfg (pktMatch s.cfg p inPort) e = true ∧ e' = touch len s.now e) ∨
     (∃ fm, op = .flowMod fm ∧ e' = mkEntry s.cfg s.now fm ∧ fm.flags.testBit FF_EMERG = false) := by
   cases op with
   | flowMod fm =>
     have fin : Kept s e' ∨ (e' = mkEntry s.cfg s.now fm ∧ fm.flags.testBit FF_EMERG = false) → (Kept s e' ∨
         (∃ p inPort len, Op.flowMod fm = .packet p inPort len ∧
-          ∃ e ∈ s.table, e.accepts (s.cfg.mv.fromPacket p inPort) = true ∧ e' = touch len s.now e) ∨
+          ∃ e ∈ s.table, accepts s.cfg (pktMatch s.cfg p inPort) e = true ∧ e' = touch len s.now e) ∨
         (∃ fm', Op.flowMod fm = .flowMod fm' ∧ e' = mkEntry s.cfg s.now fm' ∧ fm'.flags.testBit FF_EMERG = false)) :=
       fun h => h.elim Or.inl (fun h => Or.inr (Or.inr ⟨fm, rfl, h⟩))
     have he'' : e' ∈ (flowModHandler s fm).1.table := by rw [← flowModStep_table]; exact he'
@@ -422,6 +422,11 @@ theorem flowModModify_removals (s : State) (fm : FlowModMsg) (strict : Bool) : r
   · rfl
   · exact flowModAdd_removals s fm
 
+theorem ctlSend_removals (pool : BufPool.Pool BFrame) (f : BFrame) (n : Nat) : removals (ctlSend pool f n).2 = [] := by
+  induction n generalizing pool with
+  | zero => rfl
+  | succ n ih => simp only [ctlSend, removals, List.filterMap_cons]; exact ih _
+
 theorem bufferTail_removals (s : State) (fm : FlowModMsg) : removals (bufferTail s fm).2 = [] := by
   unfold bufferTail
   split
@@ -430,7 +435,9 @@ theorem bufferTail_removals (s : State) (fm : FlowModMsg) : removals (bufferTail
   · unfold bufferUse
     split
     · rfl
-    · split <;> rfl
+    · split
+      · rfl
+      · simp only [removals_append, ctlSend_removals]; rfl
 
 /-- the entries a step removes *with a reason*: an expiry sweep removes the idle-expired entries (reason IDLE_TIMEOUT) and,
     among the others, the hard-expired ones (HARD_TIMEOUT); DELETE / DELETE_STRICT remove the selected entries (DELETE).
@@ -481,7 +488,9 @@ theorem step_removals (s : State) (op : Op) :
       rfl
   | packet p port len =>
     simp only [step, packetStep, departures]
-    split <;> rfl
+    split
+    · exact ctlSend_removals _ _ _
+    · rfl
   | advance dt => rfl
   | sweep =>
     simp only [step, sweep, departures, removals_append, removals_notify, List.filter_append, List.map_append, filter_map_pair]
@@ -541,5 +550,111 @@ theorem hardOut_iff (now : Nat) (e : FEntry) :
   unfold hardOut
   simp only [Bool.and_eq_true, decide_eq_true_eq]
   constructor <;> (rintro ⟨h1, h2⟩; exact ⟨h1, by omega⟩)
+
+/-! ## nothing else leaves the table -/
+
+/-- what identifies an entry across steps (actions, `last_touched` and the counters may change) -/
+def ident (e : FEntry) : OfMatch × Nat × OfMatch × Nat × Nat × Nat × Nat × Nat :=
+  (e.mtch, e.priority, e.data.wire, e.data.cookie, e.data.flags, e.data.idle, e.data.hard, e.data.created)
+
+/-- the entries a step may take out of the table: a sweep the expired ones, DELETE[_STRICT] the selected ones, ADD the ones it
+    replaces (equal match for the strict test, equal priority) — and no other step any -/
+def mayLeave (s : State) : Op → FEntry → Bool
+  | .sweep, e => idleOut s.now e || hardOut s.now e
+  | .flowMod fm, e =>
+    (match fm.cmd with
+     | .add => isMatchedBy s.cfg e (rxMatch s.cfg fm.mtch) fm.priority true none
+     | .delete => isMatchedBy s.cfg e (rxMatch s.cfg fm.mtch) fm.priority false (portFilter fm.outPort)
+     | .deleteStrict => isMatchedBy s.cfg e (rxMatch s.cfg fm.mtch) fm.priority true (portFilter fm.outPort)
+     | _ => false)
+  | _, _ => false
+
+theorem map_ident_map (f : FEntry → FEntry) (hf : ∀ e, ident (f e) = ident e) (t : Table EData) :
+    (t.map f).map ident = t.map ident := by
+  rw [List.map_map]; exact List.map_congr_left (fun e _ => hf e)
+
+theorem map_ident_modifyFirst (p : FEntry → Bool) (f : FEntry → FEntry) (hf : ∀ e, ident (f e) = ident e) (t : Table EData) :
+    (modifyFirst p f t).map ident = t.map ident := by
+  induction t with
+  | nil => rfl
+  | cons x r ih =>
+    simp only [modifyFirst]
+    split
+    · simp [hf x]
+    · simp [ih]
+
+theorem sublist_addEntryBy (key : FEntry → Nat) (e : FEntry) (t : Table EData) : t.Sublist (addEntryBy key e t) := by
+  obtain ⟨k, _, heq, _⟩ := addEntryBy_eq key e t
+  rw [heq, insertAt]
+  conv => lhs; rw [← List.take_append_drop k t]
+  exact (List.Sublist.refl _).append (List.sublist_cons_self _ _)
+
+theorem flowModAdd_keeps (s : State) (fm : FlowModMsg) : (addBase s fm).Sublist (flowModAdd s fm).1.table := by
+  unfold flowModAdd flowModFailed
+  split
+  · exact addBase_sublist s fm
+  · split
+    · exact addBase_sublist s fm
+    · split
+      · exact List.Sublist.refl _
+      · exact sublist_addEntryBy _ _ _
+
+/-- **Nothing else leaves the table** (no hypothesis): every entry of the table before a step that the step may not take out
+    (`mayLeave`) is in the table after it, in the same relative order, with the same match, priority, cookie, flags, timeouts
+    and `created` (`ident`).  In particular MODIFY[_STRICT], a refused or modify-as ADD, an unknown command, the release of a
+    buffer, packet arrivals, clock advances and statistics requests keep every entry. -/
+theorem step_keeps (s : State) (op : Op) :
+    ((s.table.filter (fun e => !mayLeave s op e)).map ident).Sublist ((step s op).1.table.map ident) := by
+  have all : ∀ t : Table EData, t.filter (fun _ => !false) = t := fun t => by simp
+  cases op with
+  | flowMod fm =>
+    show List.Sublist _ ((flowModStep s fm).1.table.map ident)
+    rw [flowModStep_table]
+    have hmod : ∀ strict, fm.cmd ≠ .add → (s.table.map ident).Sublist ((flowModModify s fm strict).1.table.map ident) := by
+      intro strict hc
+      unfold flowModModify
+      simp only
+      split
+      · rw [map_ident_map]
+        · exact List.Sublist.refl _
+        · intro e; split <;> rfl
+      · have hb : addBase s fm = s.table := by
+          unfold addBase
+          split
+          · exact absurd ‹fm.cmd = Cmd.add› hc
+          · rfl
+        have := (flowModAdd_keeps s fm).map ident
+        rw [hb] at this
+        exact this
+    cases hc : fm.cmd
+    · simp only [mayLeave, flowModHandler, hc]
+      have := (flowModAdd_keeps s fm).map ident
+      simp only [addBase, hc] at this
+      exact this
+    · simp only [mayLeave, flowModHandler, hc, all]
+      exact hmod false (by rw [hc]; intro h; cases h)
+    · simp only [mayLeave, flowModHandler, hc, all]
+      exact hmod true (by rw [hc]; intro h; cases h)
+    · simp only [mayLeave, flowModHandler, hc, flowModDelete, portFilter]
+      exact List.Sublist.refl _
+    · simp only [mayLeave, flowModHandler, hc, flowModDelete, portFilter]
+      exact List.Sublist.refl _
+    · simp only [mayLeave, flowModHandler, hc, all, flowModFailed]
+      exact List.Sublist.refl _
+  | packet p port len =>
+    simp only [mayLeave, all, step, packetStep]
+    split
+    · show List.Sublist _ ((modifyFirst _ (touch len s.now) s.table).map ident)
+      rw [map_ident_modifyFirst _ (touch len s.now) (fun e => rfl)]
+      exact List.Sublist.refl _
+    · exact List.Sublist.refl _
+  | advance dt => simp only [mayLeave, all]; exact List.Sublist.refl _
+  | sweep =>
+    have : (fun e => !mayLeave s Op.sweep e) = (fun e => !idleOut s.now e && !hardOut s.now e) := by
+      funext e; simp [mayLeave]
+    rw [this]
+    exact List.Sublist.refl _
+  | flowStats m o => simp only [mayLeave, all]; exact List.Sublist.refl _
+  | aggStats m o => simp only [mayLeave, all]; exact List.Sublist.refl _
 
 end Pox.FlowMod
